@@ -861,6 +861,9 @@ def _propagate_temps(fi, ref_locals, stats):
 def _const_seq(e, module_consts):
     if isinstance(e, (ast.Tuple, ast.List)) and e.elts and all(isinstance(x, ast.Constant) for x in e.elts):
         return e.elts
+    # a short literal tuple of plain expressions (`for key in (a[i], a[i] + 1)`) is unrolled as well
+    if isinstance(e, (ast.Tuple, ast.List)) and 1 < len(e.elts) <= 4 and all(_value_like(x) for x in e.elts):
+        return e.elts
     if isinstance(e, ast.Name) and e.id in module_consts:
         return module_consts[e.id]
     return None
